@@ -284,3 +284,19 @@ Definition sample_C04 : val :=
       VZ 12345].
 Lemma sample_C04_wf : wf_C04 sample_C04 = true.
 Proof. reflexivity. Qed.
+
+(* ---------------------------------------------------------------- least connections during slow-start ramps (kind 7) *)
+Lemma wproj_with_conn cs (l : list sb) : map wproj (with_conn cs (map fst l)) = wcfg7 cs l.
+Proof. unfold with_conn, wcfg7. rewrite !map_map. apply map_ext. intros [b s]. reflexivity. Qed.
+
+(* One Balance(WlcSmooth) call with slow start and arbitrary connection counts: the pick minimises
+   connNum / CURRENT weight (the weight checkSlowStart has just computed, not the target weight) among the eligible
+   backends; -1 iff none is eligible. *)
+Theorem pick7_minimal cs T l p l' :
+  pick2 (wlc_bal_c cs) T l = (p, l') -> minimal_pick (wcfg7 cs (check_ss T l)) p = true.
+Proof.
+  unfold pick2, wlc_bal_c. rewrite <- wproj_with_conn.
+  destruct (wlc_smooth (with_conn cs (map fst (check_ss T l)))) as [[q u]|] eqn:E; intros H; inversion H; subst; clear H.
+  - destruct (wlc_smooth_some _ _ _ E) as [[c [Hc Hid]] _]. subst p. apply minimal_pick_ok. exact Hc.
+  - apply minimal_pick_none. apply wlc_smooth_none. exact E.
+Qed.
